@@ -49,10 +49,10 @@ def parse : List String → Option (Option Ev)
 
 def pcName : Pc → String
   | .idle => "idle" | .aCalled => "aCalled" | .aLockT => "aLockT" | .aClear => "aClear"
-  | .aUnlockT _ => "aUnlockT" | .aLockA _ => "aLockA" | .aHold _ _ _ => "aHold" | .aRet _ => "aRet"
+  | .aUnlockT => "aUnlockT" | .aLockA => "aLockA" | .aHold _ _ => "aHold" | .aRet _ => "aRet"
   | .tCalled _ => "tCalled" | .tLock _ => "tLock" | .tHold _ _ _ => "tHold" | .tRet _ => "tRet"
-  | .wCalled _ => "wCalled" | .wLock _ _ => "wLock" | .wHold _ _ _ => "wHold" | .wSleep _ _ => "wSleep"
-  | .wTimedOut _ _ => "wTimedOut" | .wUnlock _ _ _ => "wUnlock" | .wRet _ _ _ => "wRet"
+  | .wCalled _ => "wCalled" | .wLock _ => "wLock" | .wHold _ _ => "wHold" | .wSleep _ => "wSleep"
+  | .wTimedOut _ => "wTimedOut" | .wUnlock _ _ => "wUnlock" | .wRet _ _ => "wRet"
   | .rCalled => "rCalled" | .rLocked => "rLocked" | .rLoop => "rLoop" | .rRelease => "rRelease"
   | .rRelock => "rRelock" | .rStore => "rStore" | .rUnlock _ => "rUnlock" | .rRet => "rRet"
   | .oCalled _ => "oCalled" | .oRet _ _ => "oRet"
@@ -74,9 +74,9 @@ def edge (s : St) (t : Tid) (e : Ev) : String :=
   match s.pc t, e with
   | .idle, .call k => "idle/call-" ++ kindName k
   | .aCalled, .ld _ _ v => "aCalled/ld-" ++ b v
-  | .aHold _ _ nt, .st _ _ => "aHold/st-notified" ++ b nt
-  | .aHold _ st _, .cna _ => "aHold/cna-stored" ++ b st
-  | .aHold _ _ _, .mul _ => "aHold/mul"
+  | .aHold _ nt, .st _ _ => "aHold/st-notified" ++ b nt
+  | .aHold st _, .cna _ => "aHold/cna-stored" ++ b st
+  | .aHold _ _, .mul _ => "aHold/mul"
   | .aRet r, _ => "aRet/" ++ b r
   | .tCalled x, .ld _ _ v => "tCalled/ld-" ++ b v ++ "-" ++ ctxName x
   | .tLock x, _ => "tLock/" ++ ctxName x
@@ -85,15 +85,15 @@ def edge (s : St) (t : Tid) (e : Ev) : String :=
   | .tHold x _ _, .mul _ => "tHold/mul-" ++ ctxName x
   | .tRet r, _ => "tRet/" ++ b r
   | .wCalled k, .ld _ _ v => "wCalled/ld-" ++ b v ++ "-" ++ wkName k
-  | .wLock k _, _ => "wLock/" ++ wkName k
-  | .wHold k _ f, .ld _ _ v => "wHold/ld-" ++ b v ++ "-after" ++ b f ++ "-" ++ sideName k.side
-  | .wHold k _ _, .cwt _ => "wHold/cwt-" ++ wkName k
-  | .wSleep k _, .cwk _ .notified => "wSleep/cwk-notified-" ++ sideName k.side
-  | .wSleep k _, .cwk _ .spurious => "wSleep/cwk-spurious-" ++ sideName k.side
-  | .wSleep k _, .cwk _ .timeout => "wSleep/cwk-timeout-" ++ wkName k
-  | .wTimedOut k _, .ld _ _ v => "wTimedOut/ld-" ++ b v ++ "-" ++ wkName k
-  | .wUnlock k _ r, _ => "wUnlock/" ++ wkName k ++ "-" ++ b r
-  | .wRet k c r, _ => "wRet/" ++ wkName k ++ "-" ++ b r ++ (if c.isSome then "-observed" else "")
+  | .wLock k, _ => "wLock/" ++ wkName k
+  | .wHold k f, .ld _ _ v => "wHold/ld-" ++ b v ++ "-after" ++ b f ++ "-" ++ sideName k.side
+  | .wHold k _, .cwt _ => "wHold/cwt-" ++ wkName k
+  | .wSleep k, .cwk _ .notified => "wSleep/cwk-notified-" ++ sideName k.side
+  | .wSleep k, .cwk _ .spurious => "wSleep/cwk-spurious-" ++ sideName k.side
+  | .wSleep k, .cwk _ .timeout => "wSleep/cwk-timeout-" ++ wkName k
+  | .wTimedOut k, .ld _ _ v => "wTimedOut/ld-" ++ b v ++ "-" ++ wkName k
+  | .wUnlock k r, _ => "wUnlock/" ++ wkName k ++ "-" ++ b r
+  | .wRet k r, _ => "wRet/" ++ wkName k ++ "-" ++ b r ++ (if (s.obs t).isSome then "-observed" else "")
   | .rLocked, .ld _ _ v => "rLocked/ld-" ++ b v
   | .rLoop, .ld _ o v => "rLoop/ld-" ++ b v ++ (if o = .acq then "-acq" else "-sc")
   | .rUnlock st, _ => "rUnlock/" ++ b st
